@@ -10,7 +10,6 @@ package h2
 
 import (
 	"bytes"
-	"sync"
 
 	"github.com/saucelabs/forwarder/internal/vfrt"
 	"golang.org/x/net/http2"
@@ -23,33 +22,6 @@ type vfEnd struct {
 
 func (e *vfEnd) Read(p []byte) (int, error)  { return e.in.Read(p) }
 func (e *vfEnd) Write(p []byte) (int, error) { return e.out.Write(p) }
-
-// vfProxyLoop is Config.Proxy from the point where both connections exist.
-func vfProxyLoop(cc, sc *vfEnd) {
-	off := false
-	closing := make(chan bool)
-	cf, sf := http2.NewFramer(cc, cc), http2.NewFramer(sc, sc)
-	cToS := newRelay(ClientToServer, "client", "server", cf, sf, &off)
-	sToC := newRelay(ServerToClient, "server", "client", sf, cf, &off)
-	cToS.peer, sToC.peer = sToC, cToS
-	cToS.processors = &streamProcessors{
-		create: func(id uint32) *Processors {
-			return &Processors{cToS: &relayAdapter{id, cToS}, sToC: &relayAdapter{id, sToC}}
-		},
-	}
-	sToC.processors = cToS.processors
-	var wg sync.WaitGroup
-	wg.Add(2)
-	go func() {
-		defer wg.Done()
-		cToS.relayFrames(closing)
-	}()
-	go func() {
-		defer wg.Done()
-		sToC.relayFrames(closing)
-	}()
-	wg.Wait()
-}
 
 //vf:harness property=C10 nopanic reach=relayloop-data,relayloop-empty-data,relayloop-ping,relayloop-server-settings steps=8000000
 func vfH_C10_relayloop() {
